@@ -58,7 +58,9 @@ FnExprs(t) ==
              \* a rounded integer is an integer: integer operators on it; the one-argument forms of the variadic functions
              Fn2("floordiv", Fn2("round", Fn2("mul", x, LitI(9)), LitI(-1)), LitI(3)), Fn2("mod", Fn2("round", Fn2("mul", x, LitI(9)), LitI(-1)), LitI(7)),
              Fn2("floordiv", Fn2("round", x, LitI(1)), LitI(2)), Fn2("floordiv", Fn2("round", x, LitI(0)), y),
-             FnN("coalesce", <<x>>), FnN("hmax", <<x>>), FnN("hmin", <<y>>), FnN("hsum", <<x>>)>>
+             FnN("coalesce", <<x>>), FnN("hmax", <<x>>), FnN("hmin", <<y>>), FnN("hsum", <<x>>),
+             \* clip with one bound missing (null) and with lower > upper (the lower bound wins)
+             Fn3("clip", x, LitN, LitI(3)), Fn3("clip", x, LitI(0), LitN), Fn3("clip", x, LitI(3), LitI(-2)), Fn3("clip", f, LitI(1), LitI(0))>>
         \* case expressions: first true branch wins, null without a match.  The replayer keeps ONE python object per
         \* expression (as a user who stores `first = when(c).then(v)` in a variable does) and derives the longer case
         \* expression from the object of its prefix: the two-branch form comes first, its prefix is evaluated after it
@@ -222,6 +224,9 @@ CastExprs(t) ==
       Cast(FnN("hmax", <<c("i"), c("f")>>), "str"), Cast(Fn2("mul", Case1D(Fn2("gt", c("i"), LitI(0)), c("i"), c("f")), LitI(2)), "str"),
       Fn1("dt_year", c("d")), Fn1("dt_month", c("d")), Fn1("dt_day", c("d")), Fn1("dt_year", c("dt")), Fn1("dt_month", c("dt")), Fn1("dt_day", c("dt")),
       Fn1("dt_hour", c("dt")), Fn1("dt_minute", c("dt")), Fn1("dt_second", c("dt")), Fn1("dt_year", Cast(c("d"), "datetime")),
+      Fn1("dt_millisecond", c("dt")), Fn1("dt_millisecond", LitDt), Fn1("dt_millisecond", [k |-> "lit", ty |-> "datetime", v |-> [y |-> 2021, m |-> 3, d |-> 4, H |-> 0, M |-> 0, S |-> 1, us |-> 1000]]),
+      \* non-strict casts of values that do convert (the same result), also from the generic integer type of an expression
+      CastNS(Fn2("floordiv", c("i"), LitI(2)), "int"), CastNS(c("f"), "int"), CastNS(c("sn"), "int"), CastNS(c("i"), "float"), CastNS(c("b"), "int"),
       \* differences of dates / datetimes (durations), also across the change of month, year and leap day, and with null
       Fn2("sub", c("d"), LitD), Fn2("sub", LitD, c("d")), Fn2("sub", c("dt"), LitDt), Fn2("sub", Cast(c("d"), "datetime"), c("dt")),
       Fn2("sub", c("d"), c("d")), Fn2("sub", Cast(c("dt"), "date"), c("d")), Fn2("sub", c("dt"), Cast(c("d"), "datetime")),
